@@ -685,6 +685,32 @@ def L_union(K: int, langs: Iterable[DFA]) -> DFA:
     return out
 
 
+def lang_atoms(d: DFA) -> frozenset:
+    """Atoms that occur in at least one word of the language (labels of transitions from a reachable to a co-reachable state)."""
+    n = len(d.tr)
+    reach = {0}
+    todo = [0]
+    while todo:
+        q = todo.pop()
+        for t in d.tr[q]:
+            if t not in reach:
+                reach.add(t)
+                todo.append(t)
+    rev: list[set] = [set() for _ in range(n)]
+    for q in range(n):
+        for t in d.tr[q]:
+            rev[t].add(q)
+    live = {q for q in range(n) if d.fin[q]}
+    todo = list(live)
+    while todo:
+        q = todo.pop()
+        for r in rev[q]:
+            if r not in live:
+                live.add(r)
+                todo.append(r)
+    return frozenset(a for q in reach if q in live for a, t in enumerate(d.tr[q]) if t in live)
+
+
 class FST:
     """Finite state transducer; possibly nondeterministic; arcs[state][atom] = [(state2, out_word)]."""
 
@@ -1142,6 +1168,9 @@ class SInterp:
         self.max_loop = max_loop
         self._const_cache: dict[str, Any] = {}
         self.depth = 0
+        # references to constants of the stdlib `string` module as the analysed module spells them (`string.hexdigits`, or the
+        # bare local name of a `from string import …`) -> their value.  Empty unless the rule resolved the module's imports.
+        self.stdlib: dict[str, str] = {}
 
     # ------------------------------------------------------------------ helpers
     def lit(self, s: str) -> DFA:
@@ -1181,6 +1210,47 @@ class SInterp:
         if not isinstance(v, str):
             raise Unsupported("character set argument is not a constant string")
         return self.A.of_chars(v)
+
+    def charset_of(self, v: Any) -> frozenset:
+        """Atoms of a population of characters: a concrete string, or an abstract string (then: every character that occurs
+        in some string of the language — exact up to the alphabet's atoms)."""
+        if isinstance(v, AStr):
+            return lang_atoms(v.all)
+        return self.chars_of(v)
+
+    def _stdlib_str(self, e: ast.AST, st: State) -> str | None:
+        """Concrete value of a reference to a stdlib `string` constant, or of a subscript / slice of one with known integer
+        bounds (any Python slice: negative bounds, two-sided, step), else None.  A local of the same name shadows the import."""
+        if not self.stdlib:
+            return None
+        if isinstance(e, (ast.Attribute, ast.Name)):
+            d = _dotted(e)
+            if d is None or d not in self.stdlib or d.split(".")[0] in st.env:
+                return None
+            return self.stdlib[d]
+        if isinstance(e, ast.Subscript):
+            base = self._stdlib_str(e.value, st)
+            if base is None:
+                return None
+            sl = e.slice
+            if isinstance(sl, ast.Slice):
+                parts: list = []
+                for b in (sl.lower, sl.upper, sl.step):
+                    k = None if b is None else self._concrete_int(b, st)
+                    if b is not None and k is None:
+                        raise Unsupported(f"slice bound of `{ast.unparse(e)[:60]}` is not a known integer")
+                    parts.append(k)
+                if parts[2] == 0:
+                    return None
+                return base[slice(*parts)]
+            k = self._concrete_int(sl, st)
+            if k is None or not -len(base) <= k < len(base):
+                return None
+            return base[k]
+        if isinstance(e, ast.Call) and isinstance(e.func, ast.Attribute) and e.func.attr in ("upper", "lower") and not e.args and not e.keywords:
+            base = self._stdlib_str(e.func.value, st)
+            return None if base is None else getattr(base, e.func.attr)()
+        return None
 
     def event(self, *e: Any) -> None:
         self.events.append(e)
@@ -1629,10 +1699,14 @@ class SInterp:
                 return v if isinstance(v, (str, int, bool, set, frozenset, list, tuple, type(None))) and not isinstance(v, AStr) else _NOCONST
             if e.id in self.consts:
                 return self.const(e.id)
-            return _NOCONST
+            v = self._stdlib_str(e, st)
+            return _NOCONST if v is None else v
         if isinstance(e, (ast.Tuple, ast.List, ast.Set)):
             vs = [self._maybe_const(x, st) for x in e.elts]
             return _NOCONST if any(v is _NOCONST for v in vs) else tuple(vs)
+        if isinstance(e, (ast.Attribute, ast.Subscript)):
+            v = self._stdlib_str(e, st)
+            return _NOCONST if v is None else v
         return _NOCONST
 
     def _concrete_int(self, e: ast.AST, st: State) -> int | None:
@@ -1734,6 +1808,8 @@ class SInterp:
         if isinstance(e, ast.Subscript):
             if not self._is_stringy(e.value, st):
                 return None
+            if self._stdlib_str(e, st) is not None:
+                return None  # constant slice of a stdlib constant: evaluated concretely by e_Subscript
             sl = e.slice
             if isinstance(sl, ast.Slice):
                 if sl.step is not None:
@@ -1904,6 +1980,8 @@ class SInterp:
             return [(st.env[e.id], st)]
         if e.id in self.consts:
             return [(self.const(e.id), st)]
+        if self.stdlib and e.id in self.stdlib:
+            return [(self.stdlib[e.id], st)]
         if e.id in ("True", "False", "None"):
             return [({"True": True, "False": False, "None": None}[e.id], st)]
         return [(UNKNOWN, st)]
@@ -2034,6 +2112,9 @@ class SInterp:
         return out
 
     def e_Subscript(self, e, st):
+        v0 = self._stdlib_str(e, st)
+        if v0 is not None:
+            return [(v0, st)]
         if self._fst_step(e, st) is not None:
             return [(v, s) for _b, _c, v, s in self.sym_str(e, st)]
         out = []
@@ -2067,6 +2148,9 @@ class SInterp:
         name = _dotted(e)
         if name and name in self.hooks:
             return self.hooks[name](self, e, [], {}, st)
+        v0 = self._stdlib_str(e, st)
+        if v0 is not None:
+            return [(v0, st)]
         out = []
         for v, s in self.eval(e.value, st):
             if isinstance(v, AObj):
@@ -2138,6 +2222,9 @@ class SInterp:
 
     def e_Call(self, e, st):
         name = _dotted(e.func)
+        v0 = self._stdlib_str(e, st) if self.stdlib else None
+        if v0 is not None:
+            return [(v0, st)]
         # transformations of strings
         if self._fst_step(e, st) is not None:
             return [(v, s) for _b, _c, v, s in self.sym_str(e, st)]
@@ -2362,13 +2449,24 @@ EXPLANATION = (
     "first-character tests, the retry loop to a fixpoint. "
     "R1: the language of every returned value is included in the language of `_DNS_1035_RE` (regex AST from core/schema/deployments.py, "
     "`$` read strictly) and in length <= 63, and no subscript can raise IndexError for any name. "
+    "Random draws are decided, not trusted: the population of every `random.choice(s)` reached (the two functions are bound through the module's "
+    "imports, aliases included) is evaluated to a set of characters — a string literal, a constant of the stdlib `string` module "
+    "(ascii_letters, ascii_lowercase, ascii_uppercase, digits, hexdigits, octdigits, punctuation, whitespace, printable: values of the checker's own stdlib, "
+    "bound through `import string [as …]` / `from string import …`), any constant slice or subscript of one (`string.hexdigits[:16]`, `[:-6]`, `[::2]`; bounds may be "
+    "literals, module constants or locals), concatenations of these, or a string the interpreter followed — and the alphabet is refined by these sets. "
+    "The drawn characters then take part in the returned language (so a leading-character draw that may yield a digit, or a suffix draw that may yield an upper-case letter, "
+    "shows up in R1/return with a witness id, the offending position and the draws whose population holds that character), and "
+    "R1/draw: for each draw site, every character of its population that can reach a returned id is a character that occurs in some DNS-1035 label "
+    "(the label alphabet is read off the regex automaton); a population with foreign characters is confirmed by a counterfactual interpretation "
+    "in which this one draw is confined to label characters — if invalid ids disappear, the draw is reported with its population and the foreign characters. "
     "R2: (a) for names whose lowercased form has k = 0, 1, 2 ASCII alphanumerics, no returned id is free of a randomly drawn part; "
     "(b) for names with >= 3 of them and force_suffix=False the first candidate offered to the availability check has no random part; "
     "(c) for names with exactly 3 of them (length <= 20) that candidate still has >= 3 alphanumerics (none was dropped). "
     "Not decided: uniqueness against the cluster (validate_deployment_id is an oracle that may answer anything), that the kept "
     "alphanumerics are the same characters in the same order (only their number), quality of the randomness."
 )
-TRUSTED = ["CPython ast, re._parser (regex ASTs), str.lower/isalpha/isdigit/isalnum tables", "random.choices/choice return members of the given population"]
+TRUSTED = ["CPython ast, re._parser (regex ASTs), str.lower/isalpha/isdigit/isalnum tables", "random.choices/choice return members of the given population",
+           "values of the str constants of the stdlib `string` module (taken from the checker's interpreter)"]
 LEVEL_NOTE = "necessary conditions decided exactly on a regular-language abstraction; sound for all Unicode names and lengths; not a proof of uniqueness"
 TECHNIQUE = "abstract interpretation over regular languages (symbolic alphabet, transducer images, language inclusion)"
 
@@ -2402,10 +2500,110 @@ def _reachable_functions(functions: dict[str, ast.AST], entry: str, stop: Iterab
     return out
 
 
+def _stdlib_string_values() -> dict[str, str]:
+    """The str constants of the checker's own stdlib `string` module (trusted; nothing of /repo is involved)."""
+    import string as _string
+
+    return {k: v for k, v in vars(_string).items() if not k.startswith("_") and isinstance(v, str)}
+
+
+def import_bindings(tree: ast.AST | None) -> tuple[dict[str, str], dict[str, str]]:
+    """From the import statements of the analysed module (module level or inside functions):
+    ({spelling of a stdlib string constant in this module: its value}, {spelling of random.choice / random.choices: canonical name}).
+    `import string` / `import string as s` give the dotted spellings, `from string import digits [as d]` the bare ones."""
+    values = _stdlib_string_values()
+    consts: dict[str, str] = {}
+    draws: dict[str, str] = {"random.choice": "random.choice", "random.choices": "random.choices"}
+    for n in ast.walk(tree) if tree is not None else ():
+        if isinstance(n, ast.Import):
+            for a in n.names:
+                local = a.asname or a.name
+                if a.name == "string":
+                    consts.update({f"{local}.{k}": v for k, v in values.items()})
+                elif a.name == "random":
+                    draws.update({f"{local}.choice": "random.choice", f"{local}.choices": "random.choices"})
+        elif isinstance(n, ast.ImportFrom) and not n.level:
+            for a in n.names:
+                if n.module == "string" and a.name in values:
+                    consts[a.asname or a.name] = values[a.name]
+                elif n.module == "random" and a.name in ("choice", "choices"):
+                    draws[a.asname or a.name] = f"random.{a.name}"
+    return consts, draws
+
+
+def _static_int(e: ast.AST | None, ints: dict[str, int]) -> int | None:
+    if isinstance(e, ast.Constant) and isinstance(e.value, int) and not isinstance(e.value, bool):
+        return e.value
+    if isinstance(e, ast.UnaryOp) and isinstance(e.op, ast.USub):
+        v = _static_int(e.operand, ints)
+        return None if v is None else -v
+    if isinstance(e, ast.Name):
+        return ints.get(e.id)
+    if isinstance(e, ast.BinOp) and isinstance(e.op, (ast.Add, ast.Sub)):
+        l, r = _static_int(e.left, ints), _static_int(e.right, ints)
+        if l is not None and r is not None:
+            return l + r if isinstance(e.op, ast.Add) else l - r
+    return None
+
+
+def stdlib_charsets(nodes: Iterable[ast.AST], stdlib: dict[str, str], consts: dict[str, ast.AST]) -> list[set]:
+    """Character sets the alphabet has to refine because the analysed code obtains them from the stdlib `string` module:
+    every referenced constant, and every slice / subscript of one whose bounds are integer literals, module-level integer
+    constants or locals assigned once to such (bounds that are not, are left to the interpreter, which refuses a population
+    the alphabet does not refine)."""
+    if not stdlib:
+        return []
+    out: list[set] = []
+
+    def value(e: ast.AST, ints: dict[str, int]) -> str | None:
+        if isinstance(e, (ast.Attribute, ast.Name)):
+            return stdlib.get(_dotted(e) or "")
+        if isinstance(e, ast.Subscript):
+            base = value(e.value, ints)
+            if base is None:
+                return None
+            if isinstance(e.slice, ast.Slice):
+                parts = []
+                for b in (e.slice.lower, e.slice.upper, e.slice.step):
+                    k = None if b is None else _static_int(b, ints)
+                    if (b is not None and k is None) or (b is e.slice.step and k == 0):
+                        return None
+                    parts.append(k)
+                return base[slice(*parts)]
+            k = _static_int(e.slice, ints)
+            return base[k] if k is not None and -len(base) <= k < len(base) else None
+        if isinstance(e, ast.Call) and isinstance(e.func, ast.Attribute) and e.func.attr in ("upper", "lower") and not e.args and not e.keywords:
+            base = value(e.func.value, ints)
+            return None if base is None else getattr(base, e.func.attr)()
+        return None
+
+    mod_ints = {k: v.value for k, v in consts.items() if isinstance(v, ast.Constant) and isinstance(v.value, int) and not isinstance(v.value, bool)}
+    for root in nodes:
+        ints = dict(mod_ints)
+        stores: dict[str, list] = {}
+        for n in ast.walk(root):
+            if isinstance(n, ast.Name) and isinstance(n.ctx, ast.Store):
+                stores.setdefault(n.id, []).append(n)
+            elif isinstance(n, ast.arg):
+                stores.setdefault(n.arg, []).append(n)
+        for n in ast.walk(root):
+            if isinstance(n, ast.Assign) and len(n.targets) == 1 and isinstance(n.targets[0], ast.Name) and len(stores.get(n.targets[0].id, ())) == 1:
+                k = _static_int(n.value, mod_ints)
+                if k is not None:
+                    ints[n.targets[0].id] = k
+        for n in ast.walk(root):
+            v = value(n, ints) if isinstance(n, (ast.Attribute, ast.Name, ast.Subscript, ast.Call)) else None
+            if v:
+                if not v.isascii():
+                    raise Unsupported("non-ASCII stdlib string constant")
+                out.append(set(v))
+    return out
+
+
 class _Analysis:
     """All C32 queries on one module (the repo's, or the planted fixture)."""
 
-    def __init__(self, functions: dict[str, ast.AST], consts: dict[str, ast.AST], dns_pattern: str):
+    def __init__(self, functions: dict[str, ast.AST], consts: dict[str, ast.AST], dns_pattern: str, tree: ast.AST | None = None):
         if ENTRY not in functions:
             raise AnchorError(f"function `{ENTRY}` not found")
         self.entry = functions[ENTRY]
@@ -2414,6 +2612,9 @@ class _Analysis:
         if not any(isinstance(c, ast.Call) and _dotted(c.func) == ORACLE for c in ast.walk(self.entry)):
             raise AnchorError(f"`{ENTRY}` no longer consults `{ORACLE}`")
         singles, sets = collect_literals([self.entry] + list(self.inline.values()))
+        # how this module spells the constants of the stdlib `string` module and the two draws of `random` (from its imports)
+        self.stdlib, self.draw_names = import_bindings(tree)
+        sets = sets + stdlib_charsets([self.entry] + list(self.inline.values()), self.stdlib, consts)
         s1, s2 = regex_charsets(dns_pattern)
         lower, digits = set("abcdefghijklmnopqrstuvwxyz"), set("0123456789")
         try:
@@ -2425,6 +2626,8 @@ class _Analysis:
             raise AnchorError(f"C32: cannot build the alphabet / label language: {e}")
         self.consts = consts
         self.alnum = self.A.of_chars(lower | digits)
+        self.label_atoms = lang_atoms(self.dns)  # characters that occur in some DNS-1035 label
+        self.first_atoms = frozenset(a for a in self.label_atoms if self.dns.tr[0][a] not in _dead_states(self.dns))  # … as its first character
         self.lower_fst = fst_map(self.A, self.A.lower_image)
         params = [p.arg for p in self.entry.args.args]
         if len(params) < 1:
@@ -2439,24 +2642,46 @@ class _Analysis:
             d = d & L_length(self.K, 0, maxlen)
         return d
 
-    def run(self, names: DFA, force: Any = UNKNOWN) -> dict:
+    def run(self, names: DFA, force: Any = UNKNOWN, restrict: dict[int, frozenset] | None = None) -> dict:
+        """restrict: {id(draw call node): atoms} — counterfactual run in which that draw only yields characters of the given set."""
+        draws: dict[int, tuple[ast.AST, frozenset]] = {}
+
+        def population(ip, node, args, what):
+            if not args or not isinstance(args[0], (str, AStr)):
+                raise Unsupported(f"{what} with a population that is neither a constant string nor a string the interpreter could follow")
+            try:
+                atoms = ip.charset_of(args[0])
+            except Unsupported as e:
+                raise Unsupported(f"{what}: population `{ast.unparse(node.args[0])[:60]}`: {e}")
+            draws[id(node)] = (node, draws.get(id(node), (node, frozenset()))[1] | atoms)
+            if restrict and id(node) in restrict:
+                atoms = atoms & restrict[id(node)]
+            return atoms
+
         def h_choices(ip, node, args, kw, st):
             k = kw.get("k", 1)
-            if not args or not isinstance(args[0], str) or not isinstance(k, int):
-                raise Unsupported("random.choices with a non-constant population or k")
-            return [(ASeq(AStr(L_empty(ip.K), L_chars(ip.K, ip.chars_of(args[0]))), k, k), st)]
+            if not isinstance(k, int) or isinstance(k, bool) or len(args) > 1 or set(kw) - {"k"}:
+                raise Unsupported("random.choices with a non-constant k, or with weights")
+            atoms = population(ip, node, args, "random.choices")
+            if not atoms and k:
+                return []  # nothing to draw on this (counterfactual) path
+            return [(ASeq(AStr(L_empty(ip.K), L_chars(ip.K, atoms)), k, k), st)]
 
         def h_choice(ip, node, args, kw, st):
-            if not args or not isinstance(args[0], str):
-                raise Unsupported("random.choice with a non-constant population")
-            return [(AStr(L_empty(ip.K), L_chars(ip.K, ip.chars_of(args[0]))), st)]
+            atoms = population(ip, node, args, "random.choice")
+            if not atoms:
+                return []
+            return [(AStr(L_empty(ip.K), L_chars(ip.K, atoms)), st)]
 
         def h_oracle(ip, node, args, kw, st):
             n = st.meta.get("oracle", 0)
             ip.event("oracle", node, args[0] if args else UNKNOWN, n)
             return [(UNKNOWN, st.with_meta("oracle", min(n + 1, 2)))]
 
-        ip = SInterp(self.A, self.inline, self.consts, {"random.choices": h_choices, "random.choice": h_choice, ORACLE: h_oracle, "re.compile": hook_re_compile})
+        hooks = {ORACLE: h_oracle, "re.compile": hook_re_compile}
+        hooks.update({spelt: (h_choices if canon == "random.choices" else h_choice) for spelt, canon in self.draw_names.items()})
+        ip = SInterp(self.A, self.inline, self.consts, hooks)
+        ip.stdlib = self.stdlib
         args = {self.name_param: AStr(names)}
         if self.flag_param is not None and force is not UNKNOWN:
             args[self.flag_param] = force
@@ -2464,7 +2689,7 @@ class _Analysis:
             rets = ip.call_function(self.entry, args)
         except Unsupported as e:
             raise AnchorError(f"C32: `{ENTRY}` uses a construct the string interpreter does not model: {e}")
-        out = {"returns": {}, "first": [], "index": {}, "oracle_calls": 0, "raises": []}
+        out = {"returns": {}, "first": [], "index": {}, "oracle_calls": 0, "raises": [], "draws": draws}
         for ev in ip.events:
             if ev[0] == "return" and ev[4] == 1:
                 if ev[2] is None and ev[1].value is None:
@@ -2492,6 +2717,47 @@ class _Analysis:
         return "<none>" if w is None else repr(self.A.render(w))
 
 
+def _dead_states(d: DFA) -> set:
+    """States from which no accepting state is reachable."""
+    n = len(d.tr)
+    rev: list[set] = [set() for _ in range(n)]
+    for q in range(n):
+        for t in d.tr[q]:
+            rev[t].add(q)
+    live = {q for q in range(n) if d.fin[q]}
+    todo = list(live)
+    while todo:
+        q = todo.pop()
+        for p_ in rev[q]:
+            if p_ not in live:
+                live.add(p_)
+                todo.append(p_)
+    return set(range(n)) - live
+
+
+def _charset_desc(A: Alphabet, atoms: Iterable[int]) -> str:
+    """`A-Z`, `0-9a-f-` …: the characters of a set of atoms, ASCII members as ranges."""
+    chars: list[str] = []
+    other: list[str] = []
+    for a in sorted(atoms):
+        at = A.atoms[a]
+        if at.members is None:
+            other.append(at.desc)
+        else:
+            chars += list(at.members)
+    chars.sort()
+    out = []
+    i = 0
+    while i < len(chars):
+        j = i
+        while j + 1 < len(chars) and ord(chars[j + 1]) == ord(chars[j]) + 1:
+            j += 1
+        lo, hi = (repr(chars[i])[1:-1], repr(chars[j])[1:-1])
+        out.append(lo if i == j else (lo + hi if j == i + 1 else f"{lo}-{hi}"))
+        i = j + 1
+    return "[" + "".join(out) + "]" + ("" if not other else " + " + ", ".join(other))
+
+
 def _astrs(vals: list, what: str) -> list[AStr]:
     out = []
     for v in vals:
@@ -2512,6 +2778,7 @@ def _evaluate(an: _Analysis, brief: bool = False):
     if not r["returns"]:
         raise AnchorError(f"C32.R1: no return of `{ENTRY}` was reached")
     n_ret = 0
+    draws = sorted(r["draws"].values(), key=lambda t: (t[0].lineno, t[0].col_offset))
     for node, vals in r["returns"].values():
         n_ret += 1
         lang = L_union(K, [v.all for v in _astrs(vals, "a returned value")])
@@ -2520,11 +2787,56 @@ def _evaluate(an: _Analysis, brief: bool = False):
         why = ""
         if w is not None:
             why = f"e.g. {an.show(w)} (length {len(w)}) can be returned and is not a DNS-1035 label of at most {MAXLEN} characters"
+            # which character of the witness leaves the label language, and which random draws can supply such a character
+            q, pos = 0, None
+            dead = _dead_states(an.dns)
+            for i, a in enumerate(w[:MAXLEN]):
+                q = an.dns.tr[q][a]
+                if q in dead:
+                    pos = i
+                    break
+            if pos is not None:
+                who = [f"`{ast.unparse(dn)[:70]}` (line {dn.lineno})" for dn, atoms in draws if w[pos] in atoms]
+                if who:
+                    why += f"; no label has a character of {_charset_desc(an.A, [w[pos]])} at position {pos}, and the random draw(s) {', '.join(who)} have it in their population"
         yield ("C32.R1", "return", f"every value returned by `{ENTRY}` (all Unicode names, any force_suffix, any oracle answers) is a DNS-1035 label of <= {MAXLEN} characters", w is None, node, why)
     idx = list(r["index"].values())
     for i, (node, short) in enumerate(sorted(idx, key=lambda t: (t[0].lineno, t[0].col_offset))):
         yield ("C32.R1", f"subscript:{ast.unparse(node.value) if isinstance(node, ast.Subscript) else i}", f"`{ast.unparse(node)}` cannot raise IndexError for any name", short is None, node,
                "" if short is None else f"the subscripted string can be {an.show(short.shortest())}")
+    # ---------------- R1 draws: the population of every random draw reached must consist of characters a label may contain
+    bad_all = L_union(K, [v.all for _n, vs in r["returns"].values() for v in _astrs(vs, "a returned value")]) - an.dns
+    per_fn: dict[tuple, int] = {}
+    for dn, atoms in draws:
+        from ..index import enclosing_function as _encl
+
+        owner = getattr(_encl(dn), "name", ENTRY)
+        kind = an.draw_names.get(_dotted(dn.func) or "", "random.choice").split(".")[1]
+        per_fn[owner, kind] = per_fn.get((owner, kind), 0) + 1
+        foreign = atoms - an.label_atoms
+        ok, why = True, ""
+        if foreign:
+            # do the foreign characters reach a returned id?  Counterfactual run with this one draw confined to label characters.
+            # Tried first on the names that must get a random part (< 3 alphanumerics: few paths, cheap); a difference there is
+            # already a proof; only when none shows up, all names are compared.
+            gone = L_empty(K)
+            for names, base in ((an.names_with(0, 2), None), (L_all(K), bad_all)):
+                if base is None:
+                    r1 = an.run(names)
+                    base = L_union(K, [v.all for _n, vs in r1["returns"].values() for v in _astrs(vs, "a returned value")]) - an.dns
+                r2 = an.run(names, restrict={id(dn): an.label_atoms})
+                bad2 = L_union(K, [v.all for _n, vs in r2["returns"].values() for v in _astrs(vs, "a returned value")]) - an.dns
+                gone = base - bad2
+                if not gone.is_empty():
+                    break
+            if not gone.is_empty():
+                ok = False
+                why = (f"the population `{ast.unparse(dn.args[0])[:60]}` of this draw = {_charset_desc(an.A, atoms)} contains {_charset_desc(an.A, foreign)}, which no DNS-1035 label contains "
+                       f"(labels are made of {_charset_desc(an.A, an.label_atoms)}, the first character of {_charset_desc(an.A, an.first_atoms)}); the drawn character reaches the returned id: "
+                       f"e.g. {an.show(gone.shortest())} is returned only because of them")
+        yield ("C32.R1", f"draw:{owner}:{kind}#{per_fn[owner, kind]}", f"`{ast.unparse(dn)[:80]}`: every character this random draw can put into a returned id is one a DNS-1035 label may contain", ok, dn, why)
+    sites = [c for f in [an.entry] + list(an.inline.values()) for c in ast.walk(f) if isinstance(c, ast.Call) and (_dotted(c.func) or "") in an.draw_names]
+    yield ("floor", "draws", "", True, None, len(sites))
     yield ("floor", "returns", "", True, None, n_ret)
     yield ("floor", "subscripts", "", True, None, len(idx))
     yield ("floor", "oracle", "", True, None, r["oracle_calls"])
@@ -2562,7 +2874,7 @@ def run(chk) -> None:
     core = repo.module(CORE)
     dns = _const_regex(module_consts(core), DNS_CONST)
     top = {n.name: n for n in m.tree.body if isinstance(n, FuncNode)}
-    an = _Analysis(top, module_consts(m), dns)
+    an = _Analysis(top, module_consts(m), dns, m.tree)
     floors = {}
     for rule, inst, desc, ok, node, reason in _evaluate(an):
         if rule == "floor":
@@ -2576,6 +2888,7 @@ def run(chk) -> None:
         chk.ob(rule, desc, ok, m=m, node=node, fn=fn, instance=inst, reason=reason)
     chk.floor("C32.R1", "return sites of find_deployment_id analysed", floors.get("returns", 0), 1)
     chk.floor("C32.R1", "character subscripts checked for IndexError", floors.get("subscripts", 0), 1)
+    chk.floor("C32.R1", "random draw sites in find_deployment_id and its helpers (suffix characters, leading-letter replacement); each one reached gets its population decided", floors.get("draws", 0), 2)
     chk.floor("C32.R2", "availability-oracle consultations observed", floors.get("oracle", 0), 1)
     chk.exhaustive = True
     chk.extra["alphabet"] = [a.desc for a in an.A.atoms]
@@ -2587,9 +2900,10 @@ def run(chk) -> None:
     tree = ast.parse(src.read_text())
     ftop = {n.name: n for n in tree.body if isinstance(n, FuncNode)}
     fcon = {n.targets[0].id: n.value for n in tree.body if isinstance(n, ast.Assign) and isinstance(n.targets[0], ast.Name)}
-    fan = _Analysis(ftop, fcon, dns)
+    fan = _Analysis(ftop, fcon, dns, tree)
     res = [(rule, inst, ok) for rule, inst, _d, ok, _n, _r in _evaluate(fan, brief=True) if rule != "floor"]
     chk.floor("C32.R1", "planted invalid-label returns reported in the fixture", sum(1 for r_, i, ok in res if r_ == "C32.R1" and i == "return" and not ok), 1)
+    chk.floor("C32.R1", "planted draws from a population with non-label characters (string.hexdigits) reported in the fixture", sum(1 for r_, i, ok in res if r_ == "C32.R1" and i.startswith("draw:") and not ok), 1)
     chk.floor("C32.R2", "planted unsuffixed short ids reported in the fixture", sum(1 for r_, i, ok in res if r_ == "C32.R2" and i.startswith("alnum=") and not ok), 1)
     chk.observe("uniqueness against the cluster is not analysed: validate_deployment_id is treated as an oracle that may answer anything; after 99 collisions the function raises ValueError")
 
@@ -2606,6 +2920,10 @@ _NORM = (
     _LOW + '    deployment_id = re.sub(r"[^a-z0-9]", "-", deployment_id)\n    deployment_id = re.sub(r"-+", "-", deployment_id)\n    deployment_id = re.sub(r"^-|-$", "", deployment_id)\n'
     '    # A name with fewer than three alphanumerics always gets a random suffix. Count\n    # them here: the separators and the "d-" prefix added below do not make an id\n    # such as "a-b" or "d-1" meaningful enough.\n'
 )
+_HEXLIT = '"0123456789abcdef"'
+_HEXLINE = '    randomness = 5\n    hex_suffix = "".join(random.choices("0123456789abcdef", k=randomness))\n'
+_EMPTY_HEAD = "    if not deployment_id:\n        # DNS-1035: must start with an alphabetic character\n        if hex_suffix[0].isdigit():\n"
+_REPL = '            hex_suffix = random.choice("abcdef") + hex_suffix[1:]\n'
 TWINS: list[Twin] = [
     # ---- a count kept in a local, thresholds/lengths as module constants, inverted helper branches
     Twin("benign: alphanumeric count through a local", _P, _FEW, '    alnum_count = len(deployment_id.replace("-", ""))\n    few_alphanumerics = alnum_count < 3\n', None),
@@ -2623,6 +2941,20 @@ TWINS: list[Twin] = [
     Twin("underscore survives", _P, 're.sub(r"[^a-z0-9]", "-", deployment_id)', 're.sub(r"[^a-z0-9_]", "-", deployment_id)', "C32.R1"),
     Twin("unicode word characters survive", _P, 're.sub(r"[^a-z0-9]", "-", deployment_id)', 're.sub(r"[\\W_]", "-", deployment_id)', "C32.R1"),
     Twin("prefix added after the cut", _P, '    if deployment_id and not deployment_id[0].isalpha():\n        deployment_id = "d-" + deployment_id\n' + _CUT, _CUT + '\n    if deployment_id and not deployment_id[0].isalpha():\n        deployment_id = "d-" + deployment_id', "C32.R1"),
+    # ---- R1: populations taken from the stdlib `string` module are evaluated as character sets
+    Twin("leading-letter replacement drawn from string.ascii_letters (upper case reaches the id)", _P, _HEXLINE + _EMPTY_HEAD + _REPL,
+         "    import string\n" + _HEXLINE.replace(_HEXLIT, "string.hexdigits[:16]") + _EMPTY_HEAD + _REPL.replace('"abcdef"', "string.ascii_letters"), "C32.R1"),
+    Twin("suffix drawn from all of string.hexdigits (A-F included)", _P, _HEXLINE, "    import string\n" + _HEXLINE.replace(_HEXLIT, "string.hexdigits"), "C32.R1"),
+    Twin("suffix drawn from an aliased from-import of ascii_uppercase + digits", _P, _HEXLINE, "    from string import ascii_uppercase as letters, digits\n" + _HEXLINE.replace(_HEXLIT, "digits + letters[:6]"), "C32.R1"),
+    Twin("leading-letter replacement drawn from the hex alphabet itself (may be a digit again)", _P, _HEXLINE + _EMPTY_HEAD + _REPL,
+         "    import string\n    hex_alphabet = string.hexdigits[:-6]\n" + _HEXLINE.replace(_HEXLIT, "hex_alphabet") + _EMPTY_HEAD + _REPL.replace('"abcdef"', "hex_alphabet"), "C32.R1"),
+    Twin("suffix drawn from string.printable[:36] with the bound in a local, upper-cased", _P, _HEXLINE, "    import string\n    base36 = 36\n" + _HEXLINE.replace(_HEXLIT, "string.printable[:base36].upper()"), "C32.R1"),
+    Twin("benign: hex alphabet spelled string.hexdigits[:16], letter from string.ascii_lowercase[:6]", _P, _HEXLINE + _EMPTY_HEAD + _REPL,
+         "    import string\n" + _HEXLINE.replace(_HEXLIT, "string.hexdigits[:16]") + _EMPTY_HEAD + _REPL.replace('"abcdef"', "string.ascii_lowercase[:6]"), None),
+    Twin("benign: hex alphabet as string.digits + string.ascii_lowercase[:6] through an aliased import", _P, _HEXLINE, "    import string as st\n" + _HEXLINE.replace(_HEXLIT, "st.digits + st.ascii_lowercase[:6]"), None),
+    Twin("benign: negative slice bound, alphabet in a local, leading letter from any lower-case letter", _P, _HEXLINE + _EMPTY_HEAD + _REPL,
+         "    from string import hexdigits, ascii_lowercase\n    hex_alphabet = hexdigits[:-6]\n" + _HEXLINE.replace(_HEXLIT, "hex_alphabet") + _EMPTY_HEAD + _REPL.replace('"abcdef"', "ascii_lowercase"), None),
+    Twin("benign: base-36 suffix (string.printable[:36] is 0-9a-z)", _P, _HEXLINE, "    import string\n    base36 = 36\n" + _HEXLINE.replace(_HEXLIT, "string.printable[:base36]"), None),
     # ---- R2 breaking
     Twin("three-letter names get a suffix", _P, _SUF, '    if len(deployment_id) < 4 or force_suffix:', "C32.R2"),
     Twin("name not lowercased", _P, "deployment_id = name.lower()", "deployment_id = name", "C32.R2"),
